@@ -536,16 +536,22 @@ def compare_call(S, scn, ci, c, m):
                 cf("randset[%d].order-groups" % k, a.get("order"), b["rs"]["order"])
             # Spec, on the groups the implementation actually walks: 'the values of a are chosen first'
             og = b["rs"]["order"]
+            # the directives of the call as (before, after) pairs of field names: from the statements, or - list scenarios -
+            # handed in already expanded
+            dirs = [(names[x], names[y]) for blk in scn["blocks"] for s_ in blk["stmts"] if s_["k"] == "solve_order"
+                    for x in s_["before"] for y in s_["after"]] + [tuple(p) for p in c.get("order_names", [])]
+            if og is None:
+                here = [d for d in dirs if d[0] != d[1] and d[0] in b["rs"]["fields"] and d[1] in b["rs"]["fields"]
+                        and c.get("used", {}).get(d[0], True) and c.get("used", {}).get(d[1], True)]
+                if here and b["rs"].get("n_hard", 1) >= 0:
+                    of("solve-order-directive-ignored", {"directives": here[:4], "randset": b["rs"]["fields"]},
+                       "ordered groups in which the 'before' field is randomized first")
             if og is not None:
                 pos = {f: gi for gi, g in enumerate(og) for f in g}
-                sos = [s for blk in scn["blocks"] for s in blk["stmts"] if s["k"] == "solve_order"]
-                for s_ in sos:
-                    for x in s_["before"]:
-                        for y in s_["after"]:
-                            nx, ny = names[x], names[y]
-                            if nx in pos and ny in pos and not pos[nx] < pos[ny]:
-                                of("solve-order-before-not-first", {"before": nx, "after": ny, "groups": og},
-                                   "the group of the 'before' field is randomized before the group of the 'after' field")
+                for nx, ny in dirs:
+                    if nx in pos and ny in pos and not pos[nx] < pos[ny]:
+                        of("solve-order-before-not-first", {"before": nx, "after": ny, "groups": og},
+                           "the group of the 'before' field is randomized before the group of the 'after' field")
                 missing = [f for f in b["rs"]["fields"] if f not in pos]
                 if missing:
                     of("field-in-no-ordered-group", {"fields": missing, "groups": og}, "every field of the rand set is randomized")
